@@ -481,15 +481,16 @@ pub fn run_all(cx: &Cx) -> Acc {
         }
     }));
     // Tag *content*: entity tags that are a list separator, end in backslashes or hold obs-text,
-    // against every list of 1-3 tags over {own, W/-toggled, one byte off, neighbours ending / starting
+    // against every list of 1-3 tags over {own, W/-toggled, one byte off, letter-case twins, neighbours ending / starting
     // with a comma, a tag ending in a backslash, another tag} with each separator.
-    let awkward: Vec<Bs> = [&b","[..], b", ", b"\\", b"C:\\dir\\", b"a\\\\", b"v\xe9", b"\x80\xff", b"\xef\xbf\xbd", b"", b"W/", b"*"]
+    let awkward: Vec<Bs> = [&b","[..], b"5D41aB", b"foo", b", ", b"\\", b"C:\\dir\\", b"a\\\\", b"v\xe9", b"\x80\xff", b"\xef\xbf\xbd", b"", b"W/", b"*"]
         .iter()
         .flat_map(|o| [quote(o, false), quote(o, true)])
         .collect();
     acc.merge(par_units(cx, "awkward-tags", &awkward, true, "entity tag content {',', ', ', backslashes, obs-text, U+FFFD, empty, 'W/', '*'} x strong/weak x every list of 1-3 tags over 7 candidates x 4 separators x {If-Match, If-None-Match} x GET/HEAD", |cx, etag, acc| {
         let mut cands: Vec<Vec<u8>> = vec![etag.0.clone(), reqgen::toggle_weak(&etag.0), b"\"a,\"".to_vec(), b"\",b\"".to_vec(), b"\"x\\\"".to_vec(), b"\"other\"".to_vec()];
         cands.extend(reqgen::one_byte_off(&etag.0).into_iter().take(1));
+        cands.extend(reqgen::case_twins(&etag.0).into_iter().take(2));
         let mut lists: Vec<Vec<&Vec<u8>>> = Vec::new();
         for a in &cands {
             lists.push(vec![a]);
